@@ -338,7 +338,8 @@ func (conn *Conn) read(ctx *Context, async bool) {
 		if ctx.Error == shutdownMsg {
 			call.Error = ErrShutdown
 		} else {
-			call.Error = errors.New(ctx.Error)
+			// ctx.Error may alias the read buffer, which is recycled below.
+			call.Error = errors.New(string(append([]byte(nil), ctx.Error...)))
 		}
 		err = conn.codec.ReadResponseBody(nil, nil)
 		if err != nil {
